@@ -186,12 +186,13 @@ def run(ctx):
             if stage == "ok":
                 res["violations"].append({"key": "C15:ledger-wrong-root-accepted", "what": "verified under a "
                                           "different root of trust"})
-        for ncerts, auth_len in ((2, None), (3, 1), (3, 1000)):
+        for ncerts, auth_len in ((2, None), (3, 1), (3, 1000), (2, 0)):
             stage, err, out, dev = sgx_flow(rng, tmp, None, ncerts=ncerts, auth_len=auth_len)
             note(res, stage)
             if stage != "ok":
-                res["violations"].append({"key": "C15:sgx-genuine-fails", "what": "genuine SGX device (certs=%d) "
-                                          "failed at %s: %s" % (ncerts, stage, err)})
+                res["violations"].append({"key": "C15:sgx-genuine-fails", "what": "genuine SGX device (certs=%d, "
+                                          "%s bytes of QE auth data) failed at %s: %s"
+                                          % (ncerts, len(dev.auth), stage, err)})
             else:
                 obs = vc.parse_sgx_stdout(out)
                 if obs.get("keys_hash") != dev.keys_hash() or obs.get("mrenclave") != dev.mrenclave or \
